@@ -122,11 +122,19 @@ func (c *Cluster) handleShareFetch(creq *clientReq, w *watchShareFetch) (kmsg.Re
 		resp.Topics[idx].Partitions = append(resp.Topics[idx].Partitions, sp)
 		return &resp.Topics[idx].Partitions[len(resp.Topics[idx].Partitions)-1]
 	}
+	// ackErrs remembers the errors of piggybacked acks: if the fetch
+	// parks (long-poll), this response is dropped and rebuilt on the
+	// watcher re-invocation, which must still report them.
+	var ackErrs map[tpKey]int16
 	onAck := func(tid uuid, p int32, ec int16) {
 		if ec == 0 {
 			return // success - fetch phase handles the response entry
 		}
 		donep(tid, p, 0).AcknowledgeErrorCode = ec
+		if ackErrs == nil {
+			ackErrs = make(map[tpKey]int16)
+		}
+		ackErrs[tpKey{tid, p}] = ec
 	}
 	// onAckNotLeader routes a leader-mismatch on a piggybacked ack to
 	// the AcknowledgeErrorCode field. The ShareFetch response has no
@@ -137,7 +145,7 @@ func (c *Cluster) handleShareFetch(creq *clientReq, w *watchShareFetch) (kmsg.Re
 	// migrates the cursor via the fetch-side NOT_LEADER path if the
 	// same partition was also being fetched.
 	onAckNotLeader := func(tid uuid, p int32, _ *partData) {
-		donep(tid, p, 0).AcknowledgeErrorCode = kerr.NotLeaderForPartition.Code
+		onAck(tid, p, kerr.NotLeaderForPartition.Code)
 	}
 
 	// Session management.
@@ -433,6 +441,13 @@ func (c *Cluster) handleShareFetch(creq *clientReq, w *watchShareFetch) (kmsg.Re
 	if len(ensureAcks) == 0 && w != nil {
 		ensureAcks = w.ackTs
 	}
+	if w != nil {
+		// The acks were processed on the initial invocation; their
+		// errors must not be lost with that invocation's response.
+		for k, ec := range w.ackErrs {
+			donep(k.tid, k.p, 0).AcknowledgeErrorCode = ec
+		}
+	}
 	if len(ensureAcks) > 0 {
 		ensureAckedParts(resp, ensureAcks, addTopic)
 	}
@@ -454,6 +469,7 @@ func (c *Cluster) handleShareFetch(creq *clientReq, w *watchShareFetch) (kmsg.Re
 				creq:    creq,
 				session: session,
 				ackTs:   ackTs,
+				ackErrs: ackErrs,
 			}
 			wsf.cb = func() {
 				select {
